@@ -152,6 +152,34 @@ def handleJsdoc (args : List String) : String :=
     | _, _ => "bad-op"
   | _ => "bad-op"
 
+
+/-- `javadoc | text | chunk ; toks` → `JavaDoc::parse` (the HTML parser's tokens are data) -/
+def handleJavadoc (args : List String) : String :=
+  match splitAt "|" args with
+  | [] :: tx :: runs =>
+    match parseWsText tx, parseRuns runs with
+    | some (src, isWs), some runs => showToks (javadocParse isWs src (innerOf runs))
+    | _, _ => "bad-op"
+  | _ => "bad-op"
+
+/-- `gopar | text | chunk ; toks | …` → `Go::parse` -/
+def handleGoPar (args : List String) : String :=
+  match splitAt "|" args with
+  | [] :: tx :: runs =>
+    match parseWsText tx, parseRuns runs with
+    | some (src, isWs), some runs => showToks (goParse isWs src (innerOf runs))
+    | _, _ => "bad-op"
+  | _ => "bad-op"
+
+/-- `jdmark | toks` → the block-tag loop of javadoc.rs alone -/
+def handleJdMark (args : List String) : String :=
+  match splitAt "|" args with
+  | [[], ts] =>
+    match ts.mapM parseTok with
+    | some t => showToks (javadocMark t)
+    | none => "bad-op"
+  | _ => "bad-op"
+
 /-- `woi | text` → `without_initiators` -/
 def handleWoi (args : List String) : String :=
   match splitAt "|" args with
